@@ -591,6 +591,11 @@ pub fn gen_and_run(seed: u64, index: u64, scratch: &str, cfg: &GenCfg, fenced: &
         layout,
         annotate: rng.chance(1, 2),
         session: rng.chance(1, 3),
+        tmpdir: match rng.below(8) {
+            0 => "missing".into(),
+            1 => "private".into(),
+            _ => String::new(),
+        },
         history: vec![],
         relations: vec![],
         expect: None,
@@ -921,6 +926,7 @@ pub fn enumerate_faults(seed: u64, index: u64, scratch: &str, fenced: &BTreeSet<
         layout: Layout::default(),
         annotate: rng.chance(1, 2),
         session: false,
+        tmpdir: String::new(),
         history: vec![Op::Project { files: files.clone(), bystanders, outside: vec![], faulty: None, faulty2: None, note: "enumeration".into() }],
         relations: vec![],
         expect: None,
@@ -1104,6 +1110,9 @@ pub fn minimise(sc: &C13Scenario, class: &str, scratch: &str, budget: &mut usize
         attempt(c, &mut best, budget);
         let mut c = best.clone();
         c.session = false;
+        attempt(c, &mut best, budget);
+        let mut c = best.clone();
+        c.tmpdir = String::new();
         attempt(c, &mut best, budget);
         let mut c = best.clone();
         c.root_name = "proj".into();
